@@ -230,6 +230,21 @@ class Interp:
         self.laystack: list = []         # (layout_source, layout_dest) of the single-step routines being read
 
     # ------------------------------------------------------------ helpers
+    def assumed_value(self, test):
+        """truth value of a test under the caller's `assume_false` set (texts `L == R`), also when the same comparison is
+        written `R == L`, `L != R` or under `not`: the named exemption must not depend on how the guard is spelt"""
+        flip = False
+        while isinstance(test, ast.UnaryOp) and isinstance(test.op, ast.Not):
+            test, flip = test.operand, not flip
+        if src(test) in self.assume_false:
+            return flip
+        if isinstance(test, ast.Compare) and len(test.ops) == 1 and isinstance(test.ops[0], (ast.Eq, ast.NotEq)):
+            l_, r_ = src(test.left), src(test.comparators[0])
+            if f"{l_} == {r_}" in self.assume_false or f"{r_} == {l_}" in self.assume_false:
+                val = isinstance(test.ops[0], ast.NotEq)          # `L == R` is assumed false
+                return (not val) if flip else val
+        return None
+
     def problem(self, st: State, kind, msg, node, fq):
         rec = (kind, msg, getattr(node, "lineno", None), src(node)[:160], fq)
         if rec in st.tok.problems:
@@ -1170,8 +1185,9 @@ class Interp:
         if isinstance(n, ast.If):
             t = self.ev(n.test, st, fq)
             ts = src(n.test)
-            if ts in self.assume_false:
-                t = False
+            av = self.assumed_value(n.test)
+            if av is not None:
+                t = av
             if t is True:
                 return self.block(n.body, [st], fq)
             if t is False:
